@@ -6,7 +6,7 @@ use std::{
 use bstr::BString;
 use noodles_sam::header::record::value::{Map, map::ReferenceSequence};
 
-use crate::io::reader::{bytes_with_nul_to_bstring, num::read_u32_le};
+use crate::io::reader::{bytes_with_nul_to_bstring, num::read_u32_le, read_exact_to_vec};
 
 pub(super) fn read_reference_sequence<R>(
     reader: &mut R,
@@ -30,8 +30,8 @@ where
         usize::try_from(n).map_err(|e| io::Error::new(io::ErrorKind::InvalidData, e))
     })?;
 
-    let mut c_name = vec![0; l_name];
-    reader.read_exact(&mut c_name)?;
+    let mut c_name = Vec::new();
+    read_exact_to_vec(reader, &mut c_name, l_name)?;
 
     bytes_with_nul_to_bstring(&c_name)
 }
